@@ -400,7 +400,7 @@ func applyProfile(c *RunConfig, ch *simrt.Chooser, p string) {
 		c.NonVoters = pick(ch, 0, 1, 2) // an isolated minority may consist of a voter and non-voters
 		c.PreVoteDisabled = []bool{false}
 		c.Voters = pick(ch, 3, 5, 5)
-		c.Faults = map[string]int{"partition": 3, "heal": 2, "isolate_hot": 2}
+		c.Faults = map[string]int{"partition": 3, "heal": 2, "isolate_hot": 2, "rotate_minority": 3}
 		c.Ops = map[string]int{"apply": 20, "barrier": 1, "transfer": pick(ch, 0, 1, 3)}
 	case "C18":
 		c.LeaderLeaseTimeout = c.HeartbeatTimeout / 2
